@@ -594,3 +594,46 @@ namespace vd
         return res;
     }
 }
+
+// ---- values: evaluate expressions, report type, str and value::hash() of each (C07) ----
+namespace vd
+{
+    js::val mode_values(const js::val& req)
+    {
+        vmconf c = conf_from_json(req["conf"]);
+        auto v = make_vm(0, c);
+        g_log.clear();
+        if (req.has("prelude"))
+        {
+            bool ok = false;
+            v->rt->evaluate_expression(req["prelude"].str(), ok, false);
+        }
+        auto out = js::val::array();
+        auto& texts = req["texts"];
+        std::vector<sqf::runtime::value> vals;
+        for (size_t i = 0; i < texts.size(); i++)
+        {
+            bool ok = false;
+            auto val = v->rt->evaluate_expression(texts[i].str(), ok, false);
+            vals.push_back(val);
+            auto o = js::val::object();
+            o.set("ok", ok);
+            o.set("type", value_kind(val));
+            o.set("str", val.to_string_sqf());
+            o.set("hash", std::to_string(val.hash()));
+            out.push(o);
+        }
+        // C++-level equality matrix (value::operator==) for cross-checking the operators
+        auto eq = js::val::array();
+        for (size_t i = 0; i < vals.size(); i++)
+        {
+            std::string row;
+            for (size_t j = 0; j < vals.size(); j++) row.push_back(vals[i] == vals[j] ? '1' : '0');
+            eq.push(row);
+        }
+        auto res = js::val::object();
+        res.set("items", out);
+        res.set("eq", eq);
+        return res;
+    }
+}
